@@ -5,6 +5,7 @@ import (
 	"bytes"
 	"encoding/json"
 	"fmt"
+	"math"
 	"math/rand"
 	"strconv"
 	"sync/atomic"
@@ -634,7 +635,7 @@ func SamplingArgs(seed int64) (viol []Violation) {
 		add("Permutation(0)")
 	}
 	// the whole grid of small / zero / negative sizes: an error exactly for a negative or inconsistent size
-	for _, n := range []int{-5, -1, 0, 1, 2, 3, 17} {
+	for _, n := range []int{math.MinInt, math.MinInt + 1, math.MinInt + 5, -(1 << 62), -(1 << 32), -(1 << 31), -5, -1, 0, 1, 2, 3, 17} { // extremes: n - m must not wrap
 		_, err := g.Permutation(n)
 		if (err != nil) != (n < 0) {
 			add(fmt.Sprintf("Permutation(%d): err=%v", n, err))
@@ -642,7 +643,7 @@ func SamplingArgs(seed int64) (viol []Violation) {
 		if err := g.Shuffle(n, nop); (err != nil) != (n < 0) {
 			add(fmt.Sprintf("Shuffle(%d): err=%v", n, err))
 		}
-		for _, m := range []int{-2, -1, 0, 1, 2, 4, 17, 18} {
+		for _, m := range []int{math.MinInt, -(1 << 32), -2, -1, 0, 1, 2, 4, 10, 17, 18, math.MaxInt} {
 			bad := n < 0 || m < 0 || m > n
 			sp, err := g.SubPermutation(n, m)
 			if (err != nil) != bad || (!bad && len(sp) != m) {
